@@ -54,4 +54,20 @@ end
 def nodeString (lang : Lang) (t : Tree) (al : Nat) : String :=
   writeNode lang t al (lang.symMeta al).visible none true
 
+mutual
+  /-- What the S-expression theorem assumes of a tree: a hidden node is never MISSING, and a
+  visible/aliased node that the writer does not print (anonymous, not MISSING) has no children. -/
+  def sexpOK (lang : Lang) : Tree → Nat → Bool
+    | .mk d kids, al =>
+      (if d.visible || al != 0 then
+        (d.isMissing || (if al != 0 then (lang.symMeta al).named else d.named) || kids.isEmpty)
+       else !d.isMissing) && sexpOKKids lang kids d.productionId 0
+  def sexpOKKids (lang : Lang) : List Tree → Nat → Nat → Bool
+    | [], _, _ => true
+    | c :: rest, pid, si =>
+      sexpOK lang c (if c.data.extra then 0 else lang.aliasAt pid si) &&
+        sexpOKKids lang rest pid (if c.data.extra then si else si + 1)
+end
+
+
 end TsVerif.C06
